@@ -32,6 +32,7 @@ USER_VALUES = {
     "nesting": {"max_nesting_depth": 2}, "srp": {"max_methods": 3, "max_loc": 77},
     "magic-numbers": {"allowed_numbers": [0, 1, 37], "max_small_integer": 4},
     "dry": {"enabled": True, "min_duplicate_lines": 7},
+    "performance": {"enabled": False}, "unwrap-abuse": {"allow_expect": True, "allow_in_tests": False},
 }
 
 
@@ -155,7 +156,7 @@ def run(chk) -> None:
     chk.rule = ("(a) histories of config set/get/reset over 6 keys (5 of the schema, one of the user's own) x {valid, invalid, type-ambiguous} values, "
                 "simulated by TLC from ConfigTool.tla and replayed through real CLI processes on yaml and json "
                 "files (explicit --config and the default location); (b) init-config on every existing-file case "
-                "(subsets of 4 user sections x hyphen/underscore spelling x block/flow/commented style x 3 "
+                "(subsets of 6 user sections x hyphen/underscore spelling x block/flow/commented style x 3 "
                 "presets) and on no file; non-trivial = history contains a set / an existing file; distinct by case")
     chk.assumptions = ["`returned unchanged` is judged on the text printed by `config get` against the text given "
                        "to `config set`", "Effect is judged through the tool's own loader (parse_config_file)"]
